@@ -486,7 +486,9 @@ def extract_matching_loci(loci, fasta, in_window=2114, out_window=1000,
 	loci_gc = loci_gc[loci_n < max_n_perc]
 
 	loci_gc = ((loci_gc + gc_bin_width / 2.) // gc_bin_width).astype(int)
-	loci_bin_count = numpy.zeros(int(1./gc_bin_width)+1, dtype=int)
+	# The bin of a GC content of 1.0, which is the largest possible bin index
+	n_gc_bins = int((1. + gc_bin_width / 2.) // gc_bin_width) + 1
+	loci_bin_count = numpy.zeros(n_gc_bins, dtype=int)
 	for gc_bin in loci_gc:
 		loci_bin_count[gc_bin] += 1
 
@@ -519,7 +521,7 @@ def extract_matching_loci(loci, fasta, in_window=2114, out_window=1000,
 		for chrom in tqdm(chroms, disable=not verbose, desc=desc))
    
 	# Merge them into a single dictionary, keeping track of chroms
-	bg_bin_count = numpy.zeros(int(1./gc_bin_width) + 1, dtype=int)
+	bg_bin_count = numpy.zeros(n_gc_bins, dtype=int)
 	gc_percs = {perc: [] for perc in range(len(bg_bin_count))}
 	
 	for chrom, percs in zip(chroms, chrom_percs):
@@ -571,7 +573,7 @@ def extract_matching_loci(loci, fasta, in_window=2114, out_window=1000,
 		print("GC Bin\tBackground Count\tPeak Count\tChosen Count")
 		for i in range(n):
 			print("{:2.2f}: {:8d}\t{:8d}\t{:8d}".format(
-				numpy.arange(0, 1.01, gc_bin_width)[i], 
+				i * gc_bin_width, 
 				orig_bg_bin_count[i], orig_loci_bin_count[i], 
 				matched_loci_bin_count[i]))
 
